@@ -2,7 +2,7 @@
    and the rows evaluated by the harness:
      [model agrees with the observation; clause1; clause2; ...].          *)
 From Coq Require Import ZArith List Bool.
-From RP Require Import Common.Eqb Gen.StatesTables Pipeline.Model.
+From RP Require Import Common.Eqb Gen.StatesTables Pipeline.Model Pipeline.Stage.
 Import ListNotations.
 Open Scope Z_scope.
 
@@ -172,14 +172,14 @@ Definition c05_comp_row (c : comp) (P : params) (bf : bool) (cl : list Z) (B : l
   let '(cl', es) := work_cb c P cl B bf in
   (eqb_list oemi_eqb (map view es) l && zlist_eqb cl' ocl
    && zsame (held c P cl B bf) oheld && oret_ok ret)
-  :: clauses_comp c bf cl B ret l oheld.
+  :: clauses_comp c bf cl B ret l oheld ++ [true; true].
 
 (* work_cb around the synthetic worker *)
 Definition c05_generic_row (k : nat) (bf : bool) (cl : list Z) (B : list task)
   (ret : oret) (l : list oemi) (ocl : list Z) : list bool :=
   let '(cl', es) := generic_cb k cl B bf in
   (eqb_list oemi_eqb (map view es) l && zlist_eqb cl' ocl && oret_ok ret)
-  :: clauses_comp COther bf cl B ret l (map t_uid B).
+  :: clauses_comp COther bf cl B ret l (map t_uid B) ++ [true; true].
 
 (* raptor Master._result_cb: target_state tells the exit code *)
 Definition ok_raptor (B : list task) (l : list oemi) : bool :=
@@ -196,7 +196,7 @@ Definition ok_raptor (B : list task) (l : list oemi) : bool :=
 Definition c05_raptor_row (B : list task) (ret : oret) (l : list oemi) : list bool :=
   [ eqb_list oemi_eqb (map view (raptor_result_cb B)) l && oret_ok ret;
     ok_survives ret; ok_accounted B [] l; ok_final_xor_forward B l; true; true; true;
-    ok_raptor B l; ok_finals_agree B l; true ].
+    ok_raptor B l; ok_finals_agree B l; true; true; true ].
 
 (* ---------------- the whole pipeline ---------------- *)
 Definition any_fault (t : task) : bool :=
@@ -264,4 +264,56 @@ Definition c05_pipe_row (P : params) (W : list task) (evs : list event)
     ok_truthful T_DONE W evs l;
     ok_finals_agree W l;
     (* a task is released at most once along its way (exactly once if it got to the executor) *)
-    forallb (fun t => Nat.leb (ounsched (t_uid t) l) 1) W ].
+    forallb (fun t => Nat.leb (ounsched (t_uid t) l) 1) W; true; true ].
+
+(* ---------------- real staging: one bulk through one real stager ----------------
+   RT: per task (uid, file tree, directives); per: what the scratch tree looks
+   like afterwards and whether every enacted directive left a real copy /
+   link / the moved source at its target *)
+Definition kind_eqb (a b : kind) : bool :=
+  match a, b with
+  | KAbsent, KAbsent | KFile, KFile | KOdd, KOdd => true
+  | KDir x, KDir y => zsame x y
+  | _, _ => false
+  end.
+
+(* the tree where the stager stops: after the last directive, or at the failing one *)
+Fixpoint run_sds_partial (tr : tree) (l : list sdir) : tree :=
+  match l with
+  | [] => tr
+  | d :: r => match apply_sd tr d with Some tr' => run_sds_partial tr' r | None => tr end
+  end.
+Definition stage_partial (c : comp) (tr : tree) (l : list sdir) : tree :=
+  let a := filter (actionable c) l in
+  match c with
+  | CTIn => if forallb (fun d => present (get (sd_src d) tr)) (filter is_tar a)
+            then run_sds_partial tr (filter (fun d => negb (is_tar d)) a) else tr
+  | _ => run_sds_partial tr a
+  end.
+
+Definition realtask := (Z * tree * list sdir)%type.
+Definition realobs := (Z * list (Z * kind) * bool)%type.
+
+Definition tree_agrees (c : comp) (RT : list realtask) (o : realobs) : bool :=
+  let '(u, ot, _) := o in
+  existsb (fun rt => let '(v, tr, l) := rt in
+                     (v =? u) && forallb (fun pk => kind_eqb (get (fst pk) (stage_partial c tr l)) (snd pk)) ot) RT.
+
+(* a task is handed on only if every one of its directives could succeed:
+   every source was there when its directive was enacted *)
+Definition ok_staging_truthful (c : comp) (RT : list realtask) (l : list oemi) : bool :=
+  forallb (fun rt => let '(u, tr, sds) := rt in
+                     negb (Nat.leb 1 (opushed u l)) || stage_ok c tr sds) RT.
+(* ... and then every target is really there: a copy, a hard link, the moved source *)
+Definition ok_staged_data_present (per : list realobs) (l : list oemi) : bool :=
+  forallb (fun o => let '(u, ot, post) := o in
+                    negb (Nat.leb 1 (opushed u l))
+                    || (post && forallb (fun pk => negb (kind_eqb (snd pk) KOdd)) ot)) per.
+
+Definition c05_real_row (c : comp) (RT : list realtask) (ret : oret) (l : list oemi)
+  (per : list realobs) : list bool :=
+  let B := map (fun rt : realtask => let '(u, tr, sds) := rt in staged_tok c u tr sds) RT in
+  let '(cl', es) := work_cb c (mkP false 0) [] B false in
+  (eqb_list oemi_eqb (map view es) l && oret_ok ret && forallb (tree_agrees c RT) per
+   && (length per =? length RT)%nat)
+  :: clauses_comp c false [] B ret l [] ++ [ok_staging_truthful c RT l; ok_staged_data_present per l].
